@@ -1,1 +1,24 @@
-fn main() { eprintln!("not implemented"); std::process::exit(2); }
+//! p-zonefile: checks for C23 (zone files parse to what they denote), C24
+//! (parser totality / validity of yielded records) and C25 ($INCLUDE).
+//!
+//!   p-zonefile <C23|C24|C25> <quick|thorough> [--replay FILE]
+
+mod c23;
+mod c24;
+mod c25;
+mod generic;
+mod model;
+mod render;
+mod watch;
+mod zf;
+
+use qvlib::Ctx;
+
+fn main() {
+    let ctx: &'static Ctx = Box::leak(Box::new(Ctx::from_args(&["C23", "C24", "C25"])));
+    match ctx.id.as_str() {
+        "C23" => c23::run(ctx),
+        "C24" => c24::run(ctx),
+        _ => c25::run(ctx),
+    }
+}
